@@ -167,6 +167,6 @@ def run(repo, tier):
     res.floor('SEED', 4)
     res.floor('FWD', 6)
     from .common import run_label_eq
-    if run_label_eq(repo, res, {'photutils.segmentation.core', 'photutils.segmentation.catalog'}) < 3:
-        raise AnalysisError('vanished anchor: per-label loops over (label, slices)')
+    run_label_eq(repo, res, {'photutils.segmentation.core', 'photutils.segmentation.catalog'})
+    res.floor('LABEL-EQ', 3)
     return res
